@@ -4,7 +4,7 @@ import time
 
 from . import core
 
-ELEMS = {"TRBIG": "vf::TR_BIG", "NTRBIG": "vf::NTR_BIG", "NTRNCC": "vf::NTR_NCC", "TRNCA": "vf::TR_NCA", "NTRNCA": "vf::NTR_NCA", "TRNCC": "vf::TR_NCC", "TC16A": "vf::TC16A", "K1": "vf::K1", "K2": "vf::K2", "int": "int", "double": "double", "NTRTM": "vf::NTR_TM", "TC1": "vf::TC1", "TC4": "vf::TC4", "TC8": "vf::TC8", "TC12": "vf::TC12", "TR": "vf::TR", "NTR": "vf::NTR"}
+ELEMS = {"TC32A": "vf::TC32A", "TRBIG": "vf::TR_BIG", "NTRBIG": "vf::NTR_BIG", "NTRNCC": "vf::NTR_NCC", "TRNCA": "vf::TR_NCA", "NTRNCA": "vf::NTR_NCA", "TRNCC": "vf::TR_NCC", "TC16A": "vf::TC16A", "K1": "vf::K1", "K2": "vf::K2", "int": "int", "double": "double", "NTRTM": "vf::NTR_TM", "TC1": "vf::TC1", "TC4": "vf::TC4", "TC8": "vf::TC8", "TC12": "vf::TC12", "TR": "vf::TR", "NTR": "vf::NTR"}
 
 
 def alloc_expr(kind, elem):
@@ -130,6 +130,8 @@ QUICK = [
     VCfg("v", 0, "NTR", "basic", "uint16_t", "s3", std="c++14"),
     # over-aligned element (16 bytes / alignas 16) next to an 8-bit size_type: placement of the inline slots (UBSan alignment check)
     VCfg("s", 3, "TC16A", "basic", "uint8_t", "f3"),
+    # alignment beyond malloc's (32): containers that keep their elements inside the object only
+    VCfg("f", 4, "TC32A", "none", "uint8_t", "f3"),
 ]
 
 THOROUGH_EXTRA = [
